@@ -2,13 +2,6 @@
 
 package stream
 
-import (
-	"testing"
-	"time"
-
-	kit "github.com/bluenviron/mediamtx/internal/verifkit"
-)
-
 // Helper definitions of internal/stream and the shapes their callers use:
 //
 //	multiplyAndDivide  (stream_format.go)
@@ -17,34 +10,11 @@ import (
 //	multiplyAndDivide2 (offline_sub_stream.go)
 //	  offline_sub_stream_track.go:121,156,189,212,341 and sub_stream_format.go:99
 //	                                   (ticks, time.Second, clock rate / time scale)               ticks->ns
-func c24Helpers() (string, []c24Helper) {
-	return "internal/stream", []c24Helper{
-		{
-			name:   "stream.multiplyAndDivide",
-			fn:     multiplyAndDivide,
-			shapes: []c24Shape{c24NsToTicks, c24RateToRate},
-			maxD:   c24MaxRateU, // the only rate passed as d is a uint32 time scale
-		},
-		{
-			name: "stream.multiplyAndDivide2",
-			fn: func(v, m, d int64) int64 {
-				return int64(multiplyAndDivide2(time.Duration(v), time.Duration(m), time.Duration(d)))
-			},
-			shapes: []c24Shape{c24TicksToNs},
-		},
-	}
-}
+//
+// Each helper registers itself from its own file (c24_h_*_test.go), so that a tree in which a helper was
+// removed or renamed still lets the driver build the other helpers of the package (optional harness files).
+var c24Registry []c24Helper
 
-// TestVerifC24RegressRateWrap pins the confirmed finding C24-rate-to-rate-wrap on this copy:
-// offline_sub_stream_track.go:269 scales a tick count between two clock rates; with both rates close to 2^32
-// (inside the 1..2^32 the property quantifies over) `dec*m` exceeds int64 although the exact result (here: v itself) fits.
-func TestVerifC24RegressRateWrap(t *testing.T) {
-	if kit.Known(c24KnownKey) {
-		t.Skip("listed as known finding " + c24KnownKey)
-	}
-	const rate = int64(1)<<32 - 1
-	v := int64(1)<<31 + 1
-	if got := multiplyAndDivide(v, rate, rate); got != v {
-		t.Fatalf("multiplyAndDivide(%d, %d, %d) = %d, exact result is %d", v, rate, rate, got, v)
-	}
+func c24Helpers() (string, []c24Helper) {
+	return "internal/stream", c24Registry
 }
